@@ -146,9 +146,12 @@ def execute(scenario: Dict[str, Any], sched_spec: Optional[Dict[str, Any]] = Non
                    max_callbacks=max_callbacks)
     run.loop = loop
     if cfg.get("rt_factor"):
-        # a real-time run takes about until * rt_factor seconds; waiting loops that poll the wall
-        # clock keep a hung run alive with timers for ever, so bound the virtual time instead
-        loop.max_vtime = 20.0 + 30.0 * scenario.get("until", 1) * cfg["rt_factor"]
+        # real-time waiting loops poll the wall clock with timers: a hung run is neither idle
+        # (deadlock) nor busy (callback cap).  It is recognised by virtual time passing without
+        # anything observable happening, for much longer than any delay this run can contain.
+        period = cfg["rt_factor"] * cfg.get("time_resolution", 1.0)
+        blocks = [max(s_["beh"].get("block") or [0]) for s_ in scenario["sims"]]
+        loop.max_idle_vtime = 20.0 + 30.0 * period + 3.0 * sched.max_delay() + 3.0 * max(blocks, default=0)
 
     def _exc_handler(_loop, context, _run=run):
         _run.loop_exceptions.append(str(context.get("message"))[:200])
